@@ -575,5 +575,5 @@ MUTANTS += [
 MUTANTS += [
  {"id": "c13-explicit-denom-lower-added", "prop": "C13", "file": _EC, "old": "            for s in tensor.lower:\n                explicit_denom -= NonSymmetricTensor(", "new": "            for s in tensor.lower:\n                explicit_denom += NonSymmetricTensor("},
  {"id": "c13-explicit-denom-positive-exponent", "prop": "C13", "file": _EC, "old": "            explicit_denom = Pow(explicit_denom, -exponent)\n        else:\n            explicit_denom = self.sympy", "new": "            explicit_denom = Pow(explicit_denom, exponent)\n        else:\n            explicit_denom = self.sympy"},
- {"id": "c13-explicit-denom-keeps-assumption", "prop": "C13", "file": _EC, "old": "        if tensor_names.sym_orb_denom in self.antisym_tensors:\n            assumptions[\"antisym_tensors\"] = tuple(\n                n for n in assumptions[\"antisym_tensors\"]\n                if n != tensor_names.sym_orb_denom\n            )\n        return Expr(explicit_denom, **assumptions)", "new": "        return Expr(explicit_denom, **assumptions)"},
+ {"id": "c13-explicit-denom-keeps-assumption", "prop": "C13", "file": "adcgen/expr_container.py", "old": "            explicit_denom = self.sympy\n        if return_sympy:\n            return explicit_denom\n        assumptions = self.assumptions\n        # remove the symbolic denom from the assumptions if necessary\n        if tensor_names.sym_orb_denom in self.antisym_tensors:\n            assumptions[\"antisym_tensors\"] = tuple(\n                n for n in assumptions[\"antisym_tensors\"]\n                if n != tensor_names.sym_orb_denom\n            )\n        return Expr(explicit_denom, **assumptions)", "new": "            explicit_denom = self.sympy\n        if return_sympy:\n            return explicit_denom\n        assumptions = self.assumptions\n        return Expr(explicit_denom, **assumptions)"},
 ]
